@@ -227,7 +227,7 @@ class World(object):
         if i is None:
             return None
         before = canon.ser_instr_input(i)
-        out = [canon.render(i), canon.render(i, 'att_syntax')]
+        out = [canon.render(i), canon.render(i, 'att_syntax'), canon.render(i, 'att_syntax objdump'), canon.render(i, 'intel_syntax')]
         if canon.ser_instr_input(i) != before:
             mut.append('instr')
         return out
